@@ -88,13 +88,17 @@ theorem cFaithful : ∀ c c', cR c → cR c' → c.id = c'.id → ∀ a, c.sem a
     exact Encodable.encode_injective this
   exact keyCode_sem hcode (hk.trans hk'.symm) a
 
+theorem cVarsId : ∀ c c', cR c → cR c' → c.id = c'.id → c.vars = c'.vars := by
+  rintro c c' (rfl | rfl | rfl | ⟨k, hk, rfl⟩) (rfl | rfl | rfl | ⟨k', hk', rfl⟩) hid <;>
+    first | rfl | (simp only [cFalse, cCon, cEq, cBuild] at hid; omega)
+
 theorem cZid : ZidFaithful cR := by
   intro c c' hc hc' hz
   refine cFaithful c c' hc hc' ?_
   rcases hc with rfl | rfl | rfl | ⟨k, _, rfl⟩ <;> rcases hc' with rfl | rfl | rfl | ⟨k', _, rfl⟩ <;> exact hz
 
 theorem cHyps : SolverHyps cR cRE cEnv := by
-  refine ⟨⟨cFaithful, ?_, ?_, Or.inl rfl, fun _ => rfl⟩, cZid, ?_, fun _ _ _ _ => rfl, fun _ _ _ c hc v hv => ⟨c, hc, hv⟩,
+  refine ⟨⟨cFaithful, cVarsId, ?_, ?_, Or.inl rfl, fun _ => rfl⟩, cZid, ?_, fun _ _ _ _ => rfl, fun _ _ _ c hc v hv => ⟨c, hc, hv⟩,
     ⟨fun _ _ _ h => by simp [cEnv] at h, fun _ _ h => by simp [cEnv] at h, fun _ _ h => by simp [cEnv] at h⟩, ?_,
     ⟨?_, ?_, ?_⟩, ⟨?_, ?_⟩, ?_, ?_⟩
   · rintro c (rfl | rfl | rfl | ⟨k, hk, rfl⟩)
